@@ -3,7 +3,7 @@
    C12 apply_patch_atomic / success_effects (Model/Patch.v), C14 write_tool_effect (Model/Checkpoint.v). *)
 From RipV Require Import Base.Prelude Base.Fs Model.Paths Model.Checkpoint Model.Patch Model.SideEffects.
 From RipV Require Import Proofs.FsProofs Proofs.PatchProofs Proofs.PatchAtomic Proofs.PatchEffects.
-From RipV Require Proofs.CheckpointProofs Proofs.AutoCoverProofs.
+From RipV Require Proofs.PathsProofs Proofs.CheckpointProofs Proofs.AutoCoverProofs.
 Open Scope N_scope.
 Open Scope list_scope.
 
@@ -156,6 +156,108 @@ Proof.
     intros q N. exists raw. split; [left; reflexivity|symmetry; exact (A q N)].
   - pose proof (patch_frame_lists_changed _ _ _ _ _ W H) as P. destruct fr; [exact P|right; exact P].
   - unfold run_call, run_call_gen in H. inversion H; subst. left. reflexivity.
+Qed.
+
+(* ---------- a write that fails ---------- *)
+Lemma arg_auto_tool raw :
+  match arg_interp expected_auto_steps raw with
+  | Ok a => a = raw /\ is_absolute raw = false /\ has_parent raw = false
+  | Err e => arg_interp expected_tool_steps raw = Err e
+  end.
+Proof.
+  unfold expected_auto_steps, expected_tool_steps. cbn [arg_interp].
+  destruct (is_absolute raw); [reflexivity|]. destruct (has_parent raw); [reflexivity|]. auto.
+Qed.
+
+Lemma exists_unreadable_is_dir f rel e :
+  os_exists f (tgt_of rel) = true -> os_read f (tgt_of rel) = Err e -> lookup f (real_segs rel) = Some Dir.
+Proof.
+  unfold os_exists, os_read. destruct (pre_err f (tgt_of rel)); [discriminate|].
+  cbn [tgt_of t_path t_base t_comps t_trail app].
+  destruct (lookup f (real_segs rel)) as [[b|]|]; [discriminate|reflexivity|discriminate].
+Qed.
+
+Lemma write_refused ts f raw ext mode data e : arg_interp ts raw = Err e -> write_tool ts f raw ext mode data = (f, Some e).
+Proof. intros H. unfold write_tool. rewrite H. reflexivity. Qed.
+
+Lemma wk_comps raw : AutoCoverProofs.wk raw = comps raw.
+Proof. reflexivity. Qed.
+
+Theorem write_frame_any_outcome root f raw mode data ext f' fr :
+  is_absolute root = true -> CheckpointProofs.sane f -> tmp_free f (CWrite raw mode data ext) ->
+  run_call root f (CWrite raw mode data ext) = (f', fr) ->
+  match fr with
+  | Some l => forall q, file_at f' q <> file_at f q -> listed l q
+  | None => forall q, file_at f' q = file_at f q
+  end.
+Proof.
+  intros HR S T H. pose proof H as H0. unfold run_call, run_call_gen in H. cbn [tmp_free] in T.
+  destruct (write_tool expected_tool_steps f raw ext mode data) as [g er] eqn:WT.
+  destruct (AutoCoverProofs.write_tool_effect _ _ _ _ _ _ _ WT S T) as [_ [DM [_ O]]].
+  destruct er as [e|].
+  2:{ destruct (write_frame_lists_changed _ _ _ _ _ _ _ _ S T H0) as [A B].
+      assert (K : write_ok f (CWrite raw mode data ext) = true) by (unfold write_ok; rewrite WT; reflexivity).
+      rewrite (B K). intros q N. exists raw. split; [left; reflexivity|symmetry; exact (A q N)]. }
+  injection H as E1 E2. subst g. rewrite <- E2. clear E2 H0. cbn [summarize].
+  assert (AIe : arg_interp expected_auto_steps raw = (if is_absolute raw then Err V_ABS else if has_parent raw then Err V_PARENT else Ok raw)) by reflexivity.
+  rewrite <- AIe. clear AIe.
+  pose proof (arg_auto_tool raw) as AT. destruct (arg_interp expected_auto_steps raw) as [a|e0] eqn:AI.
+  - destruct AT as [-> [NA NP]].
+    destruct (PathsProofs.to_relative_relative root raw HR NA) as [_ TR]. destruct (TR NP) as [rel [ER SG]].
+    unfold ck_files, create. cbn [map_res]. rewrite ER. cbn [map_res].
+    unfold save_one. destruct (os_exists f (tgt_of rel)) eqn:EX.
+    + destruct (os_read f (tgt_of rel)) as [b|e1] eqn:RD; cbn [option_map map fst].
+      * intros q N. exists rel. split; [apply (proj2 (norm_all_in _ _)); exists rel; split; [left; reflexivity|reflexivity]|].
+        destruct (CheckpointProofs.path_dec q (AutoCoverProofs.wk raw)) as [E|D]; [|elim N; apply O; exact D].
+        subst q. exact SG.
+      * intros q. destruct (CheckpointProofs.path_dec q (AutoCoverProofs.wk raw)) as [E|D]; [|apply O; exact D].
+        pose proof (exists_unreadable_is_dir _ _ _ EX RD) as LD. change (real_segs rel) with (comps rel) in LD.
+        change (comps rel) with (real_segs rel) in LD. rewrite SG in LD. change (real_segs raw) with (AutoCoverProofs.wk raw) in LD.
+        subst q. unfold file_at. rewrite (DM _ LD), LD. reflexivity.
+    + cbn [option_map map fst]. intros q N. exists rel. split; [apply (proj2 (norm_all_in _ _)); exists rel; split; [left; reflexivity|reflexivity]|].
+      destruct (CheckpointProofs.path_dec q (AutoCoverProofs.wk raw)) as [E|D]; [|elim N; apply O; exact D].
+      subst q. exact SG.
+  - cbn [ck_files option_map summarize]. rewrite (write_refused _ _ _ _ _ _ _ AT) in WT. inversion WT; subst. reflexivity.
+Qed.
+
+(* every mutating tool call, whatever its outcome *)
+Theorem frame_lists_changed_paths_full root f c f' fr :
+  is_absolute root = true -> fs_wf f -> CheckpointProofs.sane f -> tmp_free f c ->
+  run_call root f c = (f', fr) ->
+  match fr with
+  | Some l => forall q, file_at f' q <> file_at f q -> listed l q
+  | None => is_shell c = true \/ forall q, file_at f' q = file_at f q
+  end.
+Proof.
+  intros HR W S T H. destruct c as [raw mode data ext|input|after].
+  - pose proof (write_frame_any_outcome _ _ _ _ _ _ _ _ HR S T H) as P. destruct fr; [exact P|right; exact P].
+  - pose proof (patch_frame_lists_changed _ _ _ _ _ W H) as P. destruct fr; [exact P|right; exact P].
+  - unfold run_call, run_call_gen in H. inversion H; subst. left. reflexivity.
+Qed.
+
+(* ---------- tie T1: a source that passes report_wf reports what the model reports ---------- *)
+Theorem reported_as_built c ops : report_wf c = true -> reported_by c ops = changed_files ops.
+Proof.
+  unfold report_wf. intros H. repeat (apply andb_true_iff in H; destruct H as [H ?]).
+  unfold reported_by, changed_files, affected_paths.
+  replace (r_lib_sorted c) with true by congruence. f_equal. f_equal.
+  induction ops as [|o r IH]; cbn [flat_map]; [reflexivity|]. rewrite IH. f_equal.
+  destruct o as [p d|p|p [q|] hs]; cbn [pushed_by op_paths].
+  - replace (r_add c) with true by congruence. reflexivity.
+  - replace (r_del c) with true by congruence. reflexivity.
+  - replace (r_upd_moved_src c) with true by congruence. replace (r_upd_moved_dst c) with true by congruence. reflexivity.
+  - replace (r_upd_plain c) with true by congruence. reflexivity.
+Qed.
+
+(* the seeded shape: the updated path is pushed only when the operation does not move *)
+Definition report_target_only : report_cfg :=
+  {| r_add := true; r_del := true; r_upd_plain := true; r_upd_moved_src := false; r_upd_moved_dst := true; r_lib_sorted := true;
+     r_tool_patch := true; r_tool_write := true; r_sum_changed := true; r_sum_path := true; r_sum_ck_only_when_none := true; r_sum_sorted := true |}.
+Lemma report_target_only_rejected : report_wf report_target_only = false /\ forall ops, reported_by report_target_only ops = reported MvTargetOnly ops.
+Proof.
+  split; [reflexivity|]. intros ops. unfold reported_by, reported. cbn [r_lib_sorted report_target_only]. f_equal. f_equal.
+  induction ops as [|o r IH]; cbn [flat_map]; [reflexivity|]. rewrite IH. f_equal.
+  destruct o as [p d|p|p [q|] hs]; reflexivity.
 Qed.
 
 (* ---------- witnesses (named constants; every equation by vm_compute) ---------- *)
